@@ -113,6 +113,39 @@ class Program:
                 subs.append(t[key])
         return any(self.ty_mentions(s, pred) for s in subs)
 
+    def trivial_wrapper(self, path):
+        """(parameter terms, result term) when `path` is a crate-local function with a single block, no call, no store through a place, whose result
+        is built from its parameters by casts / copies only; None otherwise"""
+        if path is None:
+            return None
+        if not hasattr(self, "_trivial"):
+            self._trivial = {}
+        if path in self._trivial:
+            return self._trivial[path]
+        self._trivial[path] = None
+        raw = self._bodies_raw.get(path)
+        if raw is None or not (1 <= raw.get("arg_count", 0) <= 2):
+            return None
+        blocks = [b for b in raw["blocks"] if not b["cleanup"]]
+        if len(blocks) != 1 or blocks[0]["term"]["k"] != "return":
+            return None
+        if any(s["k"] == "assign" and s["rv"]["k"] not in ("use", "cast") for s in blocks[0]["stmts"]):
+            return None
+        if any(s["k"] == "assign" and s["lhs"]["p"] for s in blocks[0]["stmts"]):
+            return None
+        b = self.body(path)
+        rt = b.return_term()
+
+        def only_casts(t):
+            while t[0] == "cast":
+                t = t[2]
+            return t[0] == "arg"
+        if not only_casts(rt):
+            return None
+        params = [("arg", i + 1, b.names.get(i + 1)) for i in range(raw["arg_count"])]
+        self._trivial[path] = (params, rt)
+        return self._trivial[path]
+
     # ---- bodies
     def body(self, path):
         if path not in self._bodies:
@@ -191,6 +224,31 @@ def canonicalise_params(prog, path, order):
                 t["args"] = [t["args"][a - 1] for a in order]
     raw["_canon"] = True
     prog._bodies.clear()
+
+
+def parse_pretty_const(s):
+    """`path::Name { a: "x", b: 0_u8, c: true }` (rustc's rendering of a struct constant, as exported by the driver) -> (adt path, [(field, value)]) for flat
+    structs of string / integer / bool members; None for anything else"""
+    if not s:
+        return None
+    m = re.fullmatch(r"\s*([A-Za-z_][\w:]*)\s*\{+\s*(.*?)\s*\}+\s*", s, re.S)
+    if not m:
+        return None
+    fields = []
+    rest = m.group(2)
+    while rest:
+        fm = re.match(r'\s*([A-Za-z_]\w*)\s*:\s*("((?:[^"\\]|\\.)*)"|(-?\d+)(?:_?[iu](?:8|16|32|64|128|size))?|true|false)\s*,?\s*', rest)
+        if not fm:
+            return None
+        if fm.group(3) is not None:
+            v = fm.group(3)
+        elif fm.group(4) is not None:
+            v = int(fm.group(4))
+        else:
+            v = 1 if fm.group(2) == "true" else 0
+        fields.append((fm.group(1), v))
+        rest = rest[fm.end():]
+    return (m.group(1), fields) if fields else None
 
 
 class AnchorError(Exception):
@@ -503,6 +561,12 @@ class Body:
                 return ("int", int(c["int"]), c["ty"])
             if "str" in c:
                 return ("str", c["str"])
+            pc = parse_pretty_const(c.get("pretty"))
+            if pc is not None and pc[0] in self.prog.adts and self.prog.adts[pc[0]]["kind"] == "struct" \
+                    and [f["name"] for f in self.prog.adts[pc[0]]["variants"][0]["fields"]] == [f for f, _ in pc[1]]:
+                # a constant of a private struct type, field by field (`const NONE: Entry = Entry { name: "None", index: 0 }`)
+                vals = tuple(("str", v) if isinstance(v, str) else ("int", int(v), None) for _, v in pc[1])
+                return ("agg", "adt", HDict({"adt": pc[0], "vname": pc[0].split("::")[-1], "variant": 0, "fields": tuple(f for f, _ in pc[1])}), vals)
             if "strs" in c:
                 return ("strs", tuple(c["strs"]))
             if c.get("zst"):
@@ -566,6 +630,10 @@ class Body:
             "indirect": "fnop" in t,
             "fnop": self.operand_term(t["fnop"], stack) if "fnop" in t else None,
         })
+        tv = self.prog.trivial_wrapper(t.get("resolved") or t.get("callee"))
+        if tv is not None and len(tv[0]) == len(args):
+            # `fn index_to_id(i: usize) -> u32 { i as u32 }`: a crate-local function whose whole body is a cast / a copy of one parameter is that cast
+            return subst(tv[1], {p_: a for p_, a in zip(tv[0], args)})
         return ("call", info, args)
 
     def return_term(self):
